@@ -519,7 +519,9 @@ var corpus = []string{"", "Z", "2030-01-01T05:00:00Z", "2030-01-01T5:00:00Z", "0
 	"2030-01-01T05:0:00Z", "2030-01-01T05:00:0Z", "2030-01-01T05:00:00+01:00", "2030-01-01T05:00:00", "20300-01-01T05:00:00Z",
 	"2030-01-01T5:00:00.123,4Z", "2030-01-01T05:00:00.99999999999999999999999999999999999999Z", "2030-01-01T٠5:00:00Z",
 	"2030-01-01T05:00:00Z07:00", "2030-01-01", "Tue, 01 Jan 2030 05:00:00 UTC", "1893474000", "2030-01-01T05:00:00.000Z",
-	"1969-12-31T23:59:59Z", "1970-01-01T00:00:00Z", "2262-04-11T23:47:16Z", "2262-04-11T23:47:17Z", "1677-09-21T00:12:43Z", "1677-09-21T00:12:44Z"}
+	"1969-12-31T23:59:59Z", "1970-01-01T00:00:00Z", "2262-04-11T23:47:16Z", "2262-04-11T23:47:17Z", "1677-09-21T00:12:43Z", "1677-09-21T00:12:44Z",
+	// the zero value of time.Time is a date like any other (long past), and so are its neighbours
+	"0001-01-01T00:00:00Z", "0001-01-01T00:00:01Z", "0000-12-31T23:59:59Z", "0001-01-01T00:00:00.000Z", "0001-01-01T00:00:00+00:00"}
 
 type buf struct {
 	f *os.File
